@@ -1,6 +1,7 @@
 import Pxv.Driver.Body
 import Pxv.Driver.CG
 import Pxv.Driver.Server
+import Pxv.Driver.Store
 open Pxv.Driver
 
 def main (args : List String) : IO UInt32 := do
@@ -8,4 +9,5 @@ def main (args : List String) : IO UInt32 := do
   | ["body"] => serve Pxv.Body.handle; return 0
   | ["cg"] => serve Pxv.CG.handle; return 0
   | ["server"] => serve Pxv.Server.handle; return 0
+  | ["store"] => Pxv.Store.serveIO Pxv.Store.handleIO; return 0
   | _ => IO.eprintln "usage: pxmodel <model>"; return 2
